@@ -1596,6 +1596,22 @@ int state_sync(struct snapraid_state* state, block_off_t blockstart, block_off_t
 		}
 	}
 
+	/* flush the parity again now that the worker threads are stopped, */
+	/* as the write-behind threads may have completed some writes after */
+	/* the flush done at the end of the sync process. */
+	/* The content file that declares such blocks as synced is written */
+	/* by the caller only after this point. */
+	for (l = 0; l < state->level; ++l) {
+		ret = parity_sync(&parity_handle[l]);
+		if (ret == -1) {
+			/* LCOV_EXCL_START */
+			log_fatal("DANGER! Unexpected sync error in %s disk.\n", lev_name(l));
+			++unrecoverable_error;
+			/* continue, as we are already exiting */
+			/* LCOV_EXCL_STOP */
+		}
+	}
+
 	for (l = 0; l < state->level; ++l) {
 		ret = parity_close(&parity_handle[l]);
 		if (ret == -1) {
